@@ -121,6 +121,7 @@ impl Scenario for MrpScenario {
             Which::C09 => check_c09(&run, &mut out),
             Which::C15 => {
                 check_c15_tap(&run.dgrams, &mut out);
+                check_c15_alloc(&run, &mut out);
                 for (n, s) in run.snaps.iter().enumerate() {
                     if let Some(s) = s {
                         check_c15_snap(s, n, &mut out);
